@@ -7,7 +7,7 @@
         (log estimate whose power overflows; see KNOWN_FINDINGS u128_log_overestimate / u256_log_overestimate)
      7  model ran out of fuel *)
 From Coq Require Import NArith List Bool.
-From SwayV Require Import Vm.Alu C27.NumModel C27.CollModel C27.Spec.
+From SwayV Require Import Vm.Alu C27.NumModel C27.CollModel C27.Spec C27.CollSpec.
 Import ListNotations.
 Local Open Scope N_scope.
 
